@@ -231,13 +231,13 @@ namespace
   {
     vh::Rng& r = c.rng;
     const int big = c.thorough() ? 12 : 8;
-    switch(r.below(6))
+    switch(r.coin(0.5) ? int(3 + r.below(3)) : int(r.below(6)))
     {
     case 0: { Index n = Index(r.range(1, 4)); spec = vm::quad_grid(n, n); c.tag("mesh:square_small"); break; }
     case 1: { Index n = Index(r.range(1, 16)); spec = r.coin() ? vm::quad_grid(n, 1) : vm::quad_grid(1, n); c.tag("mesh:strip"); break; }
     case 2: { Index k = Index(r.range(3, 9)); spec = vm::quad_star(k); c.tag("mesh:star"); break; }
-    case 3: { spec = vm::quad_grid(Index(r.range(2, big)), Index(r.range(2, big))); c.tag("mesh:grid"); break; }
-    case 4: { spec = vm::quad_grid(Index(r.range(3, big)), Index(r.range(3, big))); vm::permute_cells(spec, r); vm::permute_vertices(spec, r); c.tag("mesh:grid_permuted"); break; }
+    case 3: { spec = vm::quad_grid(Index(r.range(4, big + 4)), Index(r.range(2, big))); c.tag("mesh:grid"); break; }
+    case 4: { spec = vm::quad_grid(Index(r.range(4, big + 4)), Index(r.range(3, big))); vm::permute_cells(spec, r); vm::permute_vertices(spec, r); c.tag("mesh:grid_permuted"); break; }
     default: { spec = vm::quad_grid(Index(r.range(2, big)), Index(r.range(2, big))); vm::reorient_cells(spec, r); vm::distort_interior(spec, r, 1.0 / double(big)); c.tag("mesh:grid_reoriented"); break; }
     }
   }
@@ -252,7 +252,7 @@ namespace
   inline void gen_mesh(vh::Ctx& c, vm::MeshSpec<Shape::Hypercube<3>>& spec)
   {
     vh::Rng& r = c.rng;
-    const int big = c.thorough() ? 5 : 3;
+    const int big = c.thorough() ? 5 : 4;
     spec = vm::hexa_grid(Index(r.range(1, big)), Index(r.range(1, big)), Index(r.range(1, big))); c.tag("mesh:grid");
     if(r.coin(0.4)) { vm::permute_cells(spec, r); vm::permute_vertices(spec, r); c.tag("mesh:permuted"); }
   }
@@ -274,13 +274,15 @@ namespace
     const Index nc = g.spec.num_cells();
     static const Assembly::ThreadingStrategy ss[5] = {Assembly::ThreadingStrategy::automatic, Assembly::ThreadingStrategy::single,
       Assembly::ThreadingStrategy::layered, Assembly::ThreadingStrategy::layered_sorted, Assembly::ThreadingStrategy::colored};
-    g.strat = ss[r.below(5)]; g.sname = strat_name(g.strat);
-    switch(r.below(6))
+    { static const int w[20] = {0, 0, 0, 0, 1, 2, 2, 2, 2, 2, 3, 3, 3, 3, 3, 4, 4, 4, 4, 4}; g.strat = ss[w[r.below(20)]]; } g.sname = strat_name(g.strat);
+    // two thirds of the cases are biased towards configurations in which several worker threads really run
+    // (worker counts 2..8 on meshes with enough layers / colours); the rest covers the edge configurations
+    switch(r.coin(0.62) ? 3 : int(r.below(6)))
     {
     case 0: g.workers = std::size_t(r.below(4)); break;                 // 0..3
     case 1: g.workers = std::size_t(nc) + std::size_t(r.below(4)); break; // around #cells
     case 2: g.workers = 64; break;
-    case 3: g.workers = std::size_t(r.range(2, 5)); break;
+    case 3: g.workers = std::size_t(r.range(2, 8)); break;
     default: g.workers = std::size_t(r.range(0, long(nc) + 3)); break;
     }
     g.all = r.coin(0.7);
